@@ -179,7 +179,7 @@ def build(ctx):
             chunk = sel[j:j + 6]
             u = ctx.lower("c13", cpp(chunk), std=std, mode=mode)
             for inst in chunk:
-                hs.append(P.Harness("%s_%s_cxx%s" % (inst[0], mode, std), harness(u, inst, cap, mode == "checked"), [u], unwind=cap + 3, cap=ctx.q(120, 900),
+                hs.append(P.Harness("%s_%s_cxx%s" % (inst[0], mode, std), harness(u, inst, cap, mode == "checked"), [u], unwind=cap + 3, cap=ctx.q(300, 900),
                                     desc="dynamic_array_ref<char,%s,%s,%s>: push_back/pop_back/insert x6/erase x2/resize x3/assign x4/assign_string/assign_range/clear + observers, one step from any state, vs. vector model" % (inst[1], inst[2], "BE" if inst[5] else "LE"),
                                     bounds={"CAP": cap, "source_len": "0..3", "std": "c++" + std, "build": mode}))
     return hs
